@@ -440,7 +440,7 @@ def cmp_masks(impl, model):
     return a.size, {"index": list(i), "impl": int(a[i]), "model": int(b[i]), "count": int(len(d))}
 
 
-def near_threshold(model_side, other_side, threshold):
+def near_threshold(model_side, other_side, threshold, tol=10 * 1e-6):
     """pixels whose cross-checking decision |dL + dR(x + rint dL)| > threshold is within TOL of equality on values that
     are not float32 numbers (thirds of a refinement...): the float run may fall on the other side; they are excused"""
     out = set()
@@ -460,7 +460,7 @@ def near_threshold(model_side, other_side, threshold):
             if isinstance(e, float):
                 continue
             dyadic = all(float(np.float32(float(v))) == v for v in (d, e))
-            if not dyadic and abs(abs(float(d + e)) - threshold) <= 10 * TOL:
+            if not dyadic and abs(abs(float(d + e)) - threshold) <= tol:
                 out.add((r, c))
     return out
 
@@ -600,12 +600,269 @@ def composed_vs_run(ctx, report, gs, label, cbca=None):
     return not bad
 
 
+# --------------------------------------------------------------------------------------------
+# the extended composed run (Model/PipelineRun.lean: extRunR) vs the real pandora.run:
+# repeated refinements / filters, bilateral filter, ambiguity band, both cross-checks, filling
+# --------------------------------------------------------------------------------------------
+def gen_extended(rng, kind):
+    rows, cols = rng.choice([(7, 11), (8, 12), (9, 10), (6, 14)])
+    lo = rng.choice([-3, -2, -1, 0, 1])
+    hi = lo + rng.choice([1, 2, 3])
+    meth = rng.choice(EXACT_MEASURES)
+    w = rng.choice([3, 5]) if meth == "census" else rng.choice([1, 3, 3, 5])
+    pipe = {"matching_cost": {"matching_cost_method": meth, "window_size": w, "subpix": rng.choice([1, 1, 2])}}
+    if kind == "amb":
+        pipe["cost_volume_confidence"] = {"confidence_method": "ambiguity", "eta_max": rng.choice([0.7, 0.5]),
+                                          "eta_step": rng.choice([0.01, 0.05, 0.125]), "normalization": False}
+    pipe["disparity"] = {"disparity_method": "wta", "invalid_disparity": rng.choice([-9999, "NaN", -9999])}
+    ref = lambda: {"refinement_method": rng.choice(["vfit", "vfit", "quadratic"])}
+    med = lambda: {"filter_method": "median", "filter_size": rng.choice([3, 3, 5])}
+    if kind == "repeat":
+        # repeated steps: the flag arithmetic of a second refinement (bit 3 raised twice), a filter between two refinements
+        order = rng.choice([["refinement", "filter", "refinement.1"], ["refinement", "refinement.1", "filter"],
+                            ["refinement", "filter", "refinement.1", "filter.1"], ["filter", "refinement", "filter.1"]])
+        for name in order:
+            pipe[name] = ref() if name.startswith("refinement") else med()
+    elif kind == "bilateral":
+        # the bilateral filter last in the tail, on a map of dyadic values (no refinement before it): its Gaussian weights
+        # are tabulated on the differences of the values present
+        if rng.random() < 0.4:
+            pipe["filter"] = med()
+            name = "filter.1"
+        else:
+            name = "filter"
+        pipe[name] = {"filter_method": "bilateral", "sigma_color": rng.choice([0.5, 2.0, 10.0]), "sigma_space": rng.choice([0.4, 0.7, 1.0, 1.4])}
+    else:
+        if rng.random() < 0.8:
+            pipe["refinement"] = ref()
+        if rng.random() < 0.8:
+            pipe["filter"] = med()
+    val = {"validation_method": "cross_checking_accurate", "cross_checking_threshold": rng.choice([1.0, 1.0, 0.0, 2.0])}
+    if kind == "fill" or rng.random() < 0.35:
+        val["interpolated_disparity"] = rng.choice(["mc-cnn", "sgm"])
+    pipe["validation"] = val
+    return rows, cols, lo, hi, pipe
+
+
+def fill_variant():
+    try:
+        from translator import gen_interp
+
+        return gen_interp.variant_of(gen_interp.extract())
+    except Exception:  # pylint: disable=broad-except
+        return "guard+or"
+
+
+def composed_ext_vs_run(ctx, report, gs, label, kind):
+    """one pair through the real `pandora.run` and through the extended composed run of the step models (`C13.xrun`);
+    every captured product compared with the corresponding stage of the model"""
+    from ..impl import confidence as cf
+    from ..impl import filters as fl
+
+    rng = random.Random(gs)
+    rows, cols, lo, hi, pipe = gen_extended(rng, kind)
+    left, right = pl.make_pair(rng, rows, cols, lo, hi, masks=rng.random() < 0.45, smooth=rng.random() < 0.6,
+                               vmax=rng.choice([12, 40, 40]))
+    if rng.random() < 0.3:
+        r0, c0 = rng.randrange(1, 40), rng.randrange(1, 60)
+        left = left.assign_coords(row=np.arange(r0, r0 + rows), col=np.arange(c0, c0 + cols))
+        right = right.assign_coords(row=np.arange(r0, r0 + rows), col=np.arange(c0, c0 + cols))
+    case = {"label": label, "pipeline": pipe, "shape": [rows, cols], "disp": [lo, hi]}
+    res = pl.run_pipeline_traced(left.copy(deep=True), right.copy(deep=True), pipe)
+    steps = dict(res["steps"])
+    names = list(pipe)
+    tail_names = [n for n in names if n.split(".")[0] in ("refinement", "filter")]
+    src = source_variants()
+    base = {k: pipe[k] for k in ("matching_cost", "disparity", "validation")}
+    payload = model_payload(left, right, base)
+    tail = []
+    skipped = None
+    for n in tail_names:
+        cfg = pipe[n]
+        if n.startswith("refinement"):
+            tail.append({"kind": "refine", "method": cfg["refinement_method"], "variant": dict(src["variant"])})
+        elif cfg["filter_method"] == "median":
+            fs = int(cfg["filter_size"])
+            tail.append({"kind": "median", "fs": fs, "split": split_of("median", fs)})
+        else:
+            prev = names[names.index(n) - 1]
+            snap = steps.get(prev, {})
+            if "left" not in snap or "right" not in snap:
+                skipped = "bilateral_input_not_captured"
+                break
+            ss, sc = float(cfg["sigma_space"]), float(cfg["sigma_color"])
+            win = min(rows, cols, int(3 * ss + 1))
+            vals = np.concatenate([snap[sd]["map"][(snap[sd]["mask"] & src["invalid_mask"]) == 0].ravel() for sd in ("left", "right")])
+            spatial, diffs, rngw = fl.gaussian_tables(ss, sc, win, vals)
+            tail.append({"kind": "bilateral", "sigma_space": core.enc(ss), "split": split_of("bilateral", win),
+                         "spatial": [[core.enc(float(v)) for v in row] for row in spatial],
+                         "range": [[core.enc(float(d)), core.enc(float(wt))] for d, wt in zip(diffs.tolist(), rngw.tolist())]})
+    report.count("extended_runs")
+    report.count("extended_kind_" + kind)
+    if skipped:
+        report.count("extended_skipped_" + skipped)
+        report.case(key=json.dumps(["extended", gs], sort_keys=True), nontrivial=False)
+        return True
+    payload["tail"] = tail
+    payload["fill"] = pipe["validation"].get("interpolated_disparity")
+    payload["fill_cfg"] = {"variant": fill_variant()}
+    etas = []
+    if "cost_volume_confidence" in pipe:
+        c = pipe["cost_volume_confidence"]
+        etas = cf.numba_etas(float(c["eta_max"]), float(c["eta_step"]))
+    payload["etas"] = [core.enc(e) for e in etas]
+    payload["spots"] = [[rows // 2, cols // 2], [rng.randrange(rows), rng.randrange(cols)]]
+    model = ctx.lean.call("C13.xrun", **payload)
+    report.count("extended_literal_extRunR_pixels", model["spots"])
+    for n in names:
+        report.count("extended_step_" + n)
+    bad = []
+    if not model["spot_ok"]:
+        bad.append({"stage": "driver", "side": "-", "what": "staged evaluation differs from the literal extRunR", "diff": {}})
+
+    def note(stage, side, what, diff):
+        if diff is not None:
+            bad.append({"stage": stage, "side": side, "what": what, "diff": diff})
+
+    def cells(stage, side, impl, grid, exact, tol=TOL):
+        n, n_exact, diff = cmp_cells(impl, grid, exact) if tol == TOL else cmp_cells_tol(impl, grid, tol)
+        report.count(f"extended_cells_{stage.split('.')[0]}", n)
+        note(stage, side, "values", diff)
+
+    def masks(stage, side, impl, grid, excused=()):
+        a = np.asarray(impl).astype(np.int64)
+        b = np.asarray(grid, dtype=np.int64)
+        rest = [tuple(int(v) for v in i) for i in np.argwhere(a != b)]
+        rest = [i for i in rest if i not in excused or ((int(a[i]) ^ int(b[i])) & ~0x300)]
+        report.count(f"extended_flags_{stage.split('.')[0]}", a.size)
+        if rest:
+            note(stage, side, "flags", {"index": list(rest[0]), "impl": int(a[rest[0]]), "model": int(b[rest[0]]), "count": len(rest)})
+
+    raised = "error" in res
+    noisy = any(t["kind"] == "bilateral" for t in tail)  # after a bilateral filter values are compared within 1e-5 (as C10 does)
+    for side in ("left", "right"):
+        M = model[side]
+        s = steps.get("matching_cost", {}).get(side)
+        if s is not None:
+            cells("matching_cost", side, s["cv"], M["mc"], True)
+            masks("matching_cost", side, s["mask"], M["flags"])
+        if "cost_volume_confidence" in pipe and "cost_volume_confidence" in steps and M["amb"] is not None:
+            band = steps["cost_volume_confidence"].get("conf", {}).get(side, {}).get("confidence_from_ambiguity")
+            if band is None:
+                note("cost_volume_confidence", side, "band", {"impl": "absent", "model": "present"})
+            else:
+                n_ok = n_small = 0
+                for r in range(rows):
+                    for c in range(cols):
+                        mg = M["amb"]["margin"][r][c]
+                        if mg is not None and core.dec(mg) < Fraction(1, 100000):
+                            n_small += 1  # a normalised cost within 1e-5 of best + eta: float32 may count it differently
+                            continue
+                        m = core.dec(M["amb"]["band"][r][c])
+                        v = float(band[r, c])
+                        if (isinstance(m, float) and v != v) or (not isinstance(m, float) and abs(v - float(m)) <= 1e-6):
+                            n_ok += 1
+                        else:
+                            note("cost_volume_confidence", side, "ambiguity band", {"index": [r, c], "impl": core.enc(v), "model": core.enc(m)})
+                report.count("extended_cells_ambiguity_band", n_ok)
+                report.count("extended_cells_ambiguity_small_margin_skipped", n_small)
+            # the step writes a band and nothing else
+            s2 = steps["cost_volume_confidence"].get(side)
+            if s2 is not None:
+                cells("cost_volume_confidence", side, s2["cv"], M["mc"], True)
+                masks("cost_volume_confidence", side, s2["mask"], M["flags"])
+                report.hit("later_stages_unchanged_by_confidence_step")
+        s = steps.get("disparity", {}).get(side)
+        if s is not None:
+            cells("disparity", side, s["map"], M["wta"], True)
+            masks("disparity", side, s["mask"], M["flags"])
+        seen_bil = False
+        for k, n in enumerate(tail_names):
+            s = steps.get(n, {}).get(side)
+            mk = M["tail"][k]
+            seen_bil = seen_bil or tail[k]["kind"] == "bilateral"
+            if mk == "raises":
+                if s is not None:
+                    note(n, side, "raises", {"impl": "returned", "model": "raises"})
+                continue
+            if s is None:
+                continue
+            cells(n, side, s["map"], mk["disp"], False, 1e-5 if seen_bil else TOL)
+            masks(n, side, s["mask"], mk["flag"])
+        s = steps.get("validation", {}).get(side)
+        if s is not None and M["cc"] != "raises":
+            # the captured product is the one after both cross-checks and the filling
+            last = M["tail"][-1] if tail_names else {"disp": M["wta"]}
+            other = model["right" if side == "left" else "left"]
+            olast = other["tail"][-1] if tail_names else {"disp": other["wta"]}
+            excused = near_threshold({"filter": last}, {"filter": olast}, float(pipe["validation"]["cross_checking_threshold"]), 1e-4 if noisy else 10 * TOL) \
+                if (noisy or any(t["kind"] == "refine" for t in tail)) else set()
+            if noisy:
+                # after a bilateral filter a weighted mean that is exactly k + 1/2 in the rationals is k + 1/2 - 1e-7 in
+                # float32: rint (the correspondent, the witness search) may fall on the other side; rows holding such a value
+                # in either map are excused for bits 8 / 9
+                def halves(g):
+                    out = set()
+                    for r_, row in enumerate(g["disp"]):
+                        for w_ in row:
+                            d_ = core.dec(w_)
+                            if not isinstance(d_, float) and abs((float(d_) % 1.0) - 0.5) < 1e-4:
+                                out.add(r_)
+                    return out
+                hr = halves(last) | halves(olast)
+                excused = set(excused) | {(r_, c_) for r_ in hr for c_ in range(cols)}
+            a = np.asarray(s["mask"]).astype(np.int64)
+            b = np.asarray(M["fill"]["flag"], dtype=np.int64)
+            diff = [tuple(int(v) for v in i) for i in np.argwhere(a != b)]
+            if diff and excused and "interpolated_disparity" in pipe["validation"]:
+                # a pixel whose cross-checking decision is a float tie changes what the filling sees around it
+                report.count("extended_runs_filling_not_compared_float_tie")
+            else:
+                report.count("extended_cross_check_pixels_excused_float_tie", len([i for i in diff if i in excused]))
+                masks("validation", side, s["mask"], M["fill"]["flag"], excused)
+                cells("validation", side, s["map"], M["fill"]["disp"], False, 1e-5 if noisy else TOL)
+                if "interpolated_disparity" in pipe["validation"]:
+                    cc = np.asarray(M["cc"]["mask"], dtype=np.int64)
+                    report.count("extended_pixels_filled_by_model", int(((cc & 0x300) != 0).sum() - ((b & 0x300) != 0).sum()))
+        elif s is not None:
+            note("validation", side, "raises", {"impl": "returned", "model": "raises"})
+    if raised:
+        report.count(f"extended_run_raises_{res['error']}_at_{res['at'].split('.')[0]}")
+        model_raises = any(t == "raises" for sd in ("left", "right") for t in model[sd]["tail"])
+        if not (res["at"].startswith("refinement") and model_raises):
+            bad.append({"stage": res["at"], "side": "-", "what": "raises", "diff": {"impl": res["error"], "model": "returned"}})
+    if bad:
+        report.disagree("extended composed model run vs pandora.run: " + bad[0]["stage"] + " " + bad[0]["what"], dict(case, first=bad[0]),
+                        bad[0]["diff"].get("impl"), bad[0]["diff"].get("model"))
+        report.count("extended_runs_disagreeing")
+    report.case(key=json.dumps(["extended", gs, pipe], sort_keys=True), nontrivial=not raised,
+                sample={"extended": kind, "pipeline": pipe, "shape": [rows, cols], "disp": [lo, hi]})
+    return not bad
+
+
+def cmp_cells_tol(impl, model, tol):
+    n = 0
+    for idx in np.ndindex(impl.shape):
+        v = float(impl[idx])
+        m = model
+        for i in idx:
+            m = m[i]
+        m = core.dec(m)
+        n += 1
+        if isinstance(m, float):
+            if v == v:
+                return n, 0, {"index": list(idx), "impl": core.enc(v), "model": "nan"}
+        elif v != v or abs(v - float(m)) > tol * max(1.0, abs(float(m))):
+            return n, 0, {"index": list(idx), "impl": core.enc(v), "model": core.enc(m)}
+    return n, 0, None
+
+
 def run(ctx, report, status):
     report.rule = (
         "real differential: a local pipeline (matching cost, optional cbca, wta, optional refinement / median or bilateral filter / "
         "cross-checking) on a whole 12-16 x 20-26 pair and on crops at every offset parity (array coordinates reset or kept), "
         "disparity and flags compared bit for bit on the pixels whose dependency cone (clipped to the image) lies inside the crop; "
-        "plus wide strips crossing the 100-pixel blocks, cbca with no-data patches and tall 12-bit zncc pairs (crops far down the image); plus the vertically flipped pair; non-trivial = at least one cone-interior pixel compared; distinct by (seed, pipeline); plus the composed run of the step models (Lean: fullRun / fullRunCbca) against the real pandora.run on 6-10 x 9-14 pairs (sad/ssd/census, optional cbca, wta, optional vfit/quadratic, optional median, cross-checking; masks, per-pixel interval grids, ROI-offset coordinates), every intermediate product compared cell by cell"
+        "plus wide strips crossing the 100-pixel blocks, cbca with no-data patches and tall 12-bit zncc pairs (crops far down the image); plus the vertically flipped pair; non-trivial = at least one cone-interior pixel compared; distinct by (seed, pipeline); plus the composed run of the step models (Lean: fullRun / fullRunCbca) against the real pandora.run on 6-10 x 9-14 pairs (sad/ssd/census, optional cbca, wta, optional vfit/quadratic, optional median, cross-checking; masks, per-pixel interval grids, ROI-offset coordinates), every intermediate product compared cell by cell; plus the extended composed run (extRunR) on the same kind of pairs: validation with interpolated_disparity mc-cnn / sgm after both cross-checks, repeated steps refinement.1 / filter.1, a bilateral filter last in the tail, a cost_volume_confidence ambiguity step (band compared, later stages unchanged)"
     )
     HYPS["left"] = ctx.n(40, 400)
     src = source_variants()
@@ -641,6 +898,12 @@ def run(ctx, report, status):
     for i in range(ctx.n(4, 40)):
         gs = ctx.rng.randrange(1 << 30)
         composed_vs_run(ctx, report, gs, f"gen_seed={gs},composed_cbca", cbca=True)
+    # the extended composed run (extRunR): filling after both cross-checks, repeated refinements / filters, bilateral filter,
+    # ambiguity band
+    for kind, nq, nt in (("fill", 4, 50), ("repeat", 4, 50), ("bilateral", 3, 40), ("amb", 3, 40)):
+        for i in range(ctx.n(nq, nt)):
+            gs = ctx.rng.randrange(1 << 30)
+            composed_ext_vs_run(ctx, report, gs, f"gen_seed={gs},extended_{kind}", kind)
 
 
 def search(ctx, report, status):
@@ -673,6 +936,12 @@ def replay(ctx, report, path):
         # replay of a broken correspondence: the first disagreeing case of the composed stream
         case = data["correspondence_disagreements"][0]["case"]
     gs = int(re.search(r"gen_seed=(\d+)", case["label"]).group(1))
+    if ",extended_" in case["label"]:
+        ok = composed_ext_vs_run(ctx, report, gs, case["label"], case["label"].split(",extended_")[1])
+        for d in report.disagreements:
+            print("disagreement:", d["what"], json.dumps(d["case"], default=str)[:400], d["impl"], d["model"])
+        print("replayed: disagreements=%d" % len(report.disagreements))
+        return 0 if ok else 1
     if ",composed" in case["label"]:
         ok = composed_vs_run(ctx, report, gs, case["label"], cbca=case["label"].endswith("_cbca"))
         for d in report.disagreements:
